@@ -122,6 +122,17 @@ def model_check(chk, depth, big=False, configure=False):
     return r
 
 
+def model_check_refinement(chk, depth):
+    """FeigClient against any terminal refines the abstract token map TxnMap: every step is a Begin / Dangling / Close / Wipe / Reverse
+    step of TxnMap or leaves the map, the terminal's books and the maximum unchanged."""
+    env = {"CLIENT_DEPTH": depth, "CLIENT_EMIT": "0", "CLIENT_BIG": "0", "CLIENT_CONFIGURE": "1"}
+    r = vlib.tlc("client/MC_Client.tla", cfg="MC_Client_refine.cfg", workers=vlib.NCPU, xmx="24g", env=env, timeout=7000)
+    vlib.tlc_must_pass(r, "MC_Client (refinement)")
+    if r.violated:
+        raise vlib.ToolError("the client specification does not refine TxnMap: %s\n%s" % (r.violated, r.out[-3000:]))
+    chk.add_tlc("MC_Client, PROPERTY RefinesTxnMap: every history of %d calls (begin / commit / cancel / configure) refines the abstract token map" % depth, r)
+
+
 def model_scenarios(chk, depth, keep_every=1, offset=0, big=False, configure=False):
     env = {"CLIENT_DEPTH": depth, "CLIENT_EMIT": "1", "CLIENT_BIG": "1" if big else "0", "CLIENT_CONFIGURE": "1" if configure else "0"}
     r = vlib.tlc("client/MC_Client.tla", workers=vlib.NCPU, xmx="24g", env=env, timeout=7000)
@@ -455,6 +466,33 @@ def apalache_inductive(chk):
     want = ["holds", "holds", "holds", "violated", "violated"]
     if list(res.values()) != want:
         raise vlib.ToolError("the inductive-invariant argument for ResetStream does not go through: %s" % res)
+    shutil.rmtree(wd, ignore_errors=True)
+
+
+def apalache_txnmap(chk):
+    """Thorough tier: the abstract token map (TxnMap, which FeigClient refines - PROPERTY RefinesTxnMap of MC_Client) keeps WithinMax,
+    OneToOne and OnTheBooks in behaviours of any length: inductive invariant discharged by Apalache, with a vacuity control."""
+    import shutil
+    import subprocess
+    wd = vlib.workdir(chk.pid + "-apalache")
+    for f in ("TxnMap.tla", "MC_TxnMapInd.tla"):
+        shutil.copy(os.path.join(vlib.SPEC, "client", f), wd)
+
+    def run(init, inv, length):
+        p = subprocess.run(["apalache-mc", "check", "--init=" + init, "--cinit=ConstInit", "--inv=" + inv, "--length=%d" % length,
+                            "--out-dir=" + os.path.join(wd, "out"), "MC_TxnMapInd.tla"], cwd=wd, stdout=subprocess.PIPE,
+                           stderr=subprocess.STDOUT, text=True, timeout=3000)
+        if "The outcome is: NoError" in p.stdout:
+            return "holds"
+        if "The outcome is: Error" in p.stdout:
+            return "violated"
+        raise vlib.ToolError("apalache-mc failed (%s, %s):\n%s" % (init, inv, p.stdout[-2000:]))
+    res = {"Init => IndInv": run("Init", "IndInv", 0), "IndInv /\\ Next => IndInv'": run("IndInit", "IndInv", 1),
+           "control: pre-state not confined to the empty map": run("IndInit", "NotVacuous", 0)}
+    chk.cov["model_runs"].append({"model": "MC_TxnMapInd (Apalache 0.58: WithinMax, OneToOne, OnTheBooks inductive on TxnMap; <= 5 tokens, <= 8 receipts in the pre-state)",
+                                   "results": res})
+    if list(res.values()) != ["holds", "holds", "violated"]:
+        raise vlib.ToolError("the inductive-invariant argument for TxnMap does not go through: %s" % res)
     shutil.rmtree(wd, ignore_errors=True)
 
 
